@@ -14,6 +14,8 @@
      hc     handleClose: two-way select between the router's close signal and ctx.Done
      cl[c]  Close callers; w1 / w2 the two waits inside waitForHandlers; tmo the timer
      user   a user goroutine that calls Handler.Stop() as soon as Started() is closed
+     Watcher (a member of Closers) is watchAllHandlersStopped: once every handler loop has
+            ended it calls Close unless the router is closed already (self-close)
 
    Design switches (TRUE = defective legacy design; TLC must reject it)
      LegacyConcurrentWaits  the two waits of waitForHandlers run concurrently: the wait
@@ -26,6 +28,8 @@
 EXTENDS Naturals, Sequences, FiniteSets, TLC
 
 CONSTANTS Msgs, Closers, AllowStop, AllowTimeout,
+          Watcher,        \* the closer that models watchAllHandlersStopped (calls Close when all handlers ended), or a value outside Closers
+          AllowCtxCancel, \* the context given to Run may be cancelled by the user
           LegacyConcurrentWaits, LegacyStartedFirst, LegacyHandleClose, LegacySecondCloseNil
 
 VARIABLES srcQ, srcClosed, pump, pumpMsg, loop, loopMsg, hm, runningWg, runningMu, handlersWg,
@@ -64,6 +68,10 @@ UserStop == /\ AllowStop /\ user = "wait_started" /\ startedCh
             /\ U(<<srcQ, pump, pumpMsg, loop, loopMsg, hm, runningWg, runningMu, handlersWg, hc, run, closing, closedCh, closed, closedMu, cl, clerr, w1, w2, tmo, subCloseCalled, pubClosed, rh, startedCh, stopFnSet, dropped>>)
 UserSkip == /\ user = "wait_started" /\ user' = "done"
             /\ U(<<srcQ, srcClosed, pump, pumpMsg, loop, loopMsg, hm, runningWg, runningMu, handlersWg, hc, run, ctxCancelled, closing, closedCh, closed, closedMu, cl, clerr, w1, w2, tmo, subCloseCalled, pubClosed, rh, startedCh, stopFnSet, userStopped, dropped, panicked>>)
+
+\* ---- the user cancels the context given to Run: every handler's subscription ends
+RunCtxCancel == /\ AllowCtxCancel /\ rh = "done" /\ ~ctxCancelled /\ ctxCancelled' = TRUE /\ srcClosed' = TRUE /\ userStopped' = TRUE
+                /\ U(<<srcQ, pump, pumpMsg, loop, loopMsg, hm, runningWg, runningMu, handlersWg, hc, run, closing, closedCh, closed, closedMu, cl, clerr, w1, w2, tmo, subCloseCalled, pubClosed, rh, startedCh, stopFnSet, user, dropped, panicked>>)
 
 \* ---- subscriber decorator pump: recv from the source; send to the loop, or give the message
 \*      up when the decorator is closing / the subscription context is done
@@ -106,6 +114,7 @@ RunReturn == /\ run = "wait_closed" /\ closedCh /\ run' = "returned"
 
 \* ---- Close callers (after the router runs): closedLock; closed? ; close(closingInProgressCh) ; waitForHandlers ; close(closedCh)
 ClStart(c) == /\ cl[c] = "idle" /\ rh = "done" /\ closedMu = None
+              /\ c = Watcher => handlersWg = 0
               /\ IF closed THEN cl' = [cl EXCEPT ![c] = IF LegacySecondCloseNil THEN "returned" ELSE "rewait"] /\ U(<<closedMu, closed, closing, w1, w2>>)
                  ELSE /\ closedMu' = c /\ closed' = TRUE /\ closing' = TRUE /\ cl' = [cl EXCEPT ![c] = "waiting"]
                       /\ w1' = "wait" /\ w2' = IF LegacyConcurrentWaits THEN "lock" ELSE "off"
@@ -130,7 +139,7 @@ ClReturnAgain(c) == /\ cl[c] = "rewait"
                     /\ cl' = [cl EXCEPT ![c] = "returned"]
                     /\ U(<<srcQ, srcClosed, pump, pumpMsg, loop, loopMsg, hm, runningWg, runningMu, handlersWg, hc, run, ctxCancelled, closing, closedCh, closed, closedMu, w1, w2, tmo, subCloseCalled, pubClosed, rh, startedCh, stopFnSet, user, userStopped, dropped, panicked>>)
 
-Next == RHSubscribe \/ RHAfterStarted \/ RHSpawn \/ UserStop \/ UserSkip \/ PumpRecv \/ PumpSend \/ PumpDrop \/ LoopAdd \/ LoopEnd
+Next == RunCtxCancel \/ RHSubscribe \/ RHAfterStarted \/ RHSpawn \/ UserStop \/ UserSkip \/ PumpRecv \/ PumpSend \/ PumpDrop \/ LoopAdd \/ LoopEnd
         \/ (\E m \in Msgs : HMStep(m)) \/ HCSelect \/ HCWaitPump \/ RunCancel \/ RunReturn
         \/ (\E c \in Closers : ClStart(c) \/ ClReturn(c) \/ ClReturnAgain(c)) \/ W1Done \/ W2Lock \/ W2Done \/ Timeout
 Spec == Init /\ [][Next]_vars
@@ -150,6 +159,8 @@ RunAfterClose == run = "returned" => closedCh
 SubClosedAtEnd == (~ENABLED Next /\ NilReturned /\ ~userStopped) => (subCloseCalled /\ pubClosed)
 \* dropped messages were never handled
 DroppedNotHandled == \A m \in dropped : hm[m] = "none"
-AllReturn == <>(\A c \in Closers : cl[c] = "returned")
+AllReturn == <>(\A c \in Closers \ {Watcher} : cl[c] = "returned")
+\* C10: when the last handler ended (user Stop) or the Run context was cancelled the router closes itself and Run returns
+SelfClose == (userStopped /\ Watcher \in Closers) ~> (run = "returned" /\ closed)
 RunReturns == <>(run = "returned")
 =============================================================================
